@@ -336,9 +336,16 @@ func lifeRunOne(w *tr.Writer, tid int, raw json.RawMessage, c *common) error {
 	}
 	w.Emit(tr.Rec{"ev": "reset", "tid": tid, "sm": sc.SM, "ka": sc.KaMs, "transport": tp})
 
-	l0, err := net.Listen("tcp", "127.0.0.1:0")
+	var l0 net.Listener
+	var err error
+	for i := 0; i < 120; i++ { // ephemeral ports can run out for a while (TIME_WAIT) when several checks run at once
+		if l0, err = net.Listen("tcp", "127.0.0.1:0"); err == nil {
+			break
+		}
+		time.Sleep(250 * time.Millisecond)
+	}
 	if err != nil {
-		return err
+		return fmt.Errorf("precondition: %v", err)
 	}
 	s := &lifeSrv{addr: l0.Addr().String(), w: w, sm: sc.SM, upCh: make(chan int, 16), l: l0, pings: map[int]int{},
 		ws: sc.Transport == "ws", pend: map[string][2]interface{}{}}
@@ -418,6 +425,11 @@ func lifeRunOne(w *tr.Writer, tid int, raw json.RawMessage, c *common) error {
 		time.Sleep(20 * time.Millisecond)
 		left := leakedSince(before, 600*time.Millisecond)
 		w.Emit(tr.Rec{"ev": "leak", "n": len(left), "where": strings.Join(left, " | ")})
+		if len(left) > 0 || sc.StopInOutage {
+			// Stop() does not end a reconnection loop that is under way: the client left behind keeps dialling its old
+			// port for ever, and ports are reused by later scenarios (of any worker process)
+			requestRetire()
+		}
 		w.Emit(tr.Rec{"ev": "fin"})
 	}
 
